@@ -131,7 +131,7 @@ class Location(Spec):
         self.rejects = None
         bbox = kw.get('bbox', (-180, -90, 180, 90))
         if len(self.lon) != len(self.lat) or case.meta.get('class') == 'shape-mismatch':
-            self.rejects = ('ValueError',)
+            self.rejects = REJECT      # "are rejected": the statement names no exception type
             return
         if not isinstance(bbox, (list, tuple)) or len(bbox) != 4:
             self.rejects = REJECT
@@ -260,7 +260,8 @@ class Speed(Spec):
         if not self.full(p):
             return [], lambda cell: {M, U, F}
         if not self.full(p - 1):
-            return [], lambda cell: {M, U}
+            # the statement only speaks of points whose predecessor has a full position; no speed can be formed here
+            return [], lambda cell: {M, U, G}
         dt = Fr(self.t[p] - self.t[p - 1])
         if dt == 0:
             # outside C10's time axes; C02's converse still applies: both fixes are present, so never MISSING
@@ -372,7 +373,7 @@ class Density(Spec):
         self.inp, self.zp = case.pat['inp'], case.pat['zinp']
         self.z = case.meta['z']
         self.s, self.f = fr(kw.get('suspect_threshold')), fr(kw.get('fail_threshold'))
-        self.rejects = ('ValueError',) if len(self.inp) != len(self.zp) else None
+        self.rejects = REJECT if len(self.inp) != len(self.zp) else None      # the statement is silent on mismatched lengths: any rejection
 
     def present(self, p):
         return self.inp[p] == 'p' and self.zp[p] == 'p'
@@ -470,3 +471,19 @@ def pressure_expected(values):
         if sg * s <= 0:
             flags[i + 1] = S
     return flags
+
+
+def pressure_allowed(values):
+    """per position the set of flags the statement admits: when the mean step is exactly 0 the profile has no overall direction and the
+    statement does not say which way the tie goes (either direction, or none) - a zero step is SUSPECT in every reading"""
+    n = len(values)
+    base = pressure_expected(values)
+    if n < 2:
+        return [{f} for f in base]
+    steps = [values[i + 1] - values[i] for i in range(n - 1)]
+    if sum(steps) != 0:
+        return [{f} for f in base]
+    out = [{G}]
+    for s in steps:
+        out.append({S} if s == 0 else {G, S})
+    return out
